@@ -873,6 +873,10 @@ def compare(ctx, name, base, s0, h0, kind, other, detail, mapping=None):
         s1, h1, eq = f'<{type(e).__name__}: {e}>', None, False
     ctx.count(('R', kind, s0, detail), True)
     ctx.dist('R:' + kind)
+    if mapping is not None and len(_state.setdefault('same_reqs', [])) < (4000 if ctx.quick else 40000):
+        mp = sorted(mapping.items())
+        _state['same_reqs'].append(('same ' + ' '.join(map(str, [len(mp)] + [x for kv in mp for x in kv] + view_ints(base) + view_ints(other))),
+                                    f'{kind}: {name}'))
     ctx.sample({'relational': kind, 'first': s0[:100], 'second description': str(detail)[:100], 'canonical string of second': s1[:100]},
                limit=9)
     if s1 == s0 and eq and h1 == h0:
@@ -963,6 +967,23 @@ def relational_molecules(ctx):
     return out
 
 
+def certify_pairs(ctx):
+    """every (first, second description, renaming) triple produced by the harness goes through the proved Lean checker
+    `C01Check.checkSame` (Props: check_same_sound): the second IS the first renamed, at the constitution level."""
+    reqs = _state.pop('same_reqs', [])
+    if not reqs or not getattr(ctx, 'build_ok', True):
+        return
+    got = run_driver('C01', [r for r, _ in reqs])
+    bad = [(what, g) for (r, what), g in zip(reqs, got) if g != 'ok 1']
+    for _ in reqs:
+        ctx.dist('R:pair-certified-by-lean-checker')
+    ctx.cov['evaluations'] += len(reqs)
+    if len(got) != len(reqs) or bad:
+        ctx.cov['disagreements_checked'] += len(bad)
+        ctx.broke('relational', 'harness renumbering rejected by the Lean checker C01Check.checkSame',
+                  f'{len(bad)} of {len(reqs)} pairs; first: {bad[:2]}')
+
+
 def relational_molecules_small(ctx, nmax):
     out = []
     for s in molgen.HANDMADE + SYMMETRIC:
@@ -1051,6 +1072,7 @@ def relational(ctx, mols=None, nvar=None):
                 compare(ctx, name, base, s0, h0, 'all-permutations', c, perm, dict(zip(nums, perm)))
         ctx.notes.append(f'exhaustive sub-domain: all n! numberings of every small molecule (<= {nmax} atoms) of the run, '
                          'for atoms_order (K) and for the canonical string (R); the property domain as a whole is sampled')
+    certify_pairs(ctx)
     ctx.cov['programs'] = ctx.cov.get('programs', 0) + 3  # Smiles.__str__, __eq__, __hash__
 
 
